@@ -35,6 +35,8 @@ func init() {
 		}
 		if oList, ok := args[0].(*List); ok {
 			listSelf.Items = append(listSelf.Items, oList.Items...)
+		} else if err := listSelf.ExtendSequence(args[0]); err != nil {
+			return nil, err
 		}
 		return NoneType{}, nil
 	}, 0, "extend([item])")
